@@ -1,5 +1,6 @@
 import BoltonsVerif.Common
 import BoltonsVerif.C04.Model
+import BoltonsVerif.C04.Closed
 /-
 C04 line protocol.  Two kinds of line:
 
@@ -18,6 +19,8 @@ C04 line protocol.  Two kinds of line:
   T <flags> <perms> <umask> <dest> <part> <raises> <sizes>      the model's own trace (diagnostic)
       flags four digits 0/1: overwrite, overwrite_part, rm_part_on_exc, text_mode; perms `-` or decimal
     output:  the tokens of `saverTrace`
+  T <flags> <perms> <umask> <dest> <part> <raises> <sizes> closed   the same for a body that closes the part file
+    output:  the tokens of `saverTraceClosed`
 -/
 namespace C04.Driver
 open BV C04
@@ -148,6 +151,14 @@ def handle (line : String) : String :=
       let t := saverTrace cfg (mkFS dest part umask) ⟨sizes.map fun n => (List.replicate n 1, 0), raises⟩
       " ".intercalate (t.map showEv)
     | _, _, _, _, _, _, _ => "bad-op"
+  | ["T", flags, perms, umask, dest, part, _raises, sizes, "closed"] =>
+    match flags.toList.map bit?, (if perms = "-" then some none else perms.toNat?.map some),
+          umask.toNat?, parseDest? dest, part.toList.map bit?, natList? sizes with
+    | [some ow, some owp, some rm, some txt], some perms, some umask, some dest, [some part], some sizes =>
+      let cfg : Cfg := ⟨ow, owp, rm, txt, perms⟩
+      let t := saverTraceClosed cfg (mkFS dest part umask) (sizes.map fun n => (List.replicate n 1, 0))
+      " ".intercalate (t.map showEv)
+    | _, _, _, _, _, _ => "bad-op"
   | _ => "bad-op"
 
 end C04.Driver
